@@ -208,6 +208,98 @@ func rtClass(in *rtIn) string {
 	return "wf"
 }
 
+// dumpNode parses the condition part of a canonical dump back into a tree (for classifying parsed queries).
+func dumpNode(p *sp) (*node, bool) {
+	c := p.peek()
+	switch c {
+	case 'A', 'O', 'N':
+		p.i++
+		if !p.eat('[') {
+			return nil, false
+		}
+		n := &node{kind: c}
+		if p.eat(']') {
+			return n, true
+		}
+		for {
+			k, ok := dumpNode(p)
+			if !ok {
+				return nil, false
+			}
+			n.kids = append(n.kids, k)
+			if p.eat(']') {
+				return n, true
+			}
+			if !p.eat(';') {
+				return nil, false
+			}
+		}
+	case 'I', 'F', 'S', 'L', 'R', 'B', 'E', 'X':
+		p.i++
+		if !p.eat('(') {
+			return nil, false
+		}
+		f := strings.Split(p.until(")"), ",")
+		if !p.eat(')') {
+			return nil, false
+		}
+		n := &node{kind: 'W', op: -1}
+		if c == 'X' || len(f) < 2 {
+			return n, true
+		}
+		n.key, _ = unhx(f[0])
+		n.op, _ = strconv.Atoi(f[1])
+		if c == 'L' && len(f) == 3 {
+			n.arg = arg{t: 'l', l: []string{}}
+			if f[2] != "" {
+				for _, it := range strings.Split(f[2], ";") {
+					v, _ := unhx(it)
+					n.arg.l = append(n.arg.l, v)
+				}
+			}
+		}
+		return n, true
+	}
+	return nil, false
+}
+
+// dumpClass: the input class (see rtClass) of a query given by its canonical dump.
+func dumpClass(d string) string {
+	m := reQ.FindStringSubmatch(d)
+	if m == nil {
+		return "wf"
+	}
+	if m[3] != "-" {
+		p := &sp{s: m[3]}
+		if n, ok := dumpNode(p); ok && p.i == len(m[3]) {
+			if c := n.class(); c != "" {
+				return c
+			}
+		}
+	}
+	lim, _ := strconv.ParseInt(m[5], 10, 64)
+	off, _ := strconv.ParseInt(m[6], 10, 64)
+	if lim >= 1<<31 || off >= 1<<31 {
+		return "limit-over-31-bits"
+	}
+	return "wf"
+}
+
+// reparse checks the round trip of a query that ParseQuery returned (fields: dump, print, same|diff:…|err:…).
+func reparse(add func(sig, what string), dump, printHex, rp string) {
+	if rp == "same" {
+		return
+	}
+	p, _ := unhx(printHex)
+	cl := dumpClass(dump)
+	if strings.HasPrefix(rp, "err:") {
+		add("C11:roundtrip:"+cl, fmt.Sprintf("print of a parsed query does not parse: Print() = %q is rejected by ParseQuery: %s", p, rp))
+	} else {
+		p2, _ := unhx(strings.TrimPrefix(rp, "diff:"))
+		add("C11:roundtrip:"+cl, fmt.Sprintf("parsed query prints differently after re-parsing: %q then %q", p, p2))
+	}
+}
+
 // leaves of a dump in order (clauses with key, operator, operand) + prefix and orderby: the tokens of the query
 var reLeafTok = regexp.MustCompile(`[IFSLRBE]\([^)]*\)`)
 var reQ = regexp.MustCompile(`^Q\(([0-9a-f-]+),([0-9a-f-]+),(.*),([0-9a-f-]+),(-?\d+),(-?\d+),([01])\)$`)
@@ -237,6 +329,9 @@ func monitor(c hxlib.Case, outs []string) (vs []hxlib.Violation) {
 			// terminates with a checked query or an error
 			if of[0] == "ok" && !strings.HasSuffix(of[1], ",1)") {
 				add(i, "C11:parse-returns-unchecked-query", "ParseQuery returned a query that is not checked: "+of[1])
+			}
+			if of[0] == "ok" && len(of) == 4 {
+				reparse(func(sig, what string) { add(i, sig, what) }, of[1], of[2], of[3])
 			}
 		case "rt":
 			if of[0] != "ok" {
@@ -278,6 +373,9 @@ func monitor(c hxlib.Case, outs []string) (vs []hxlib.Violation) {
 			}
 			if of[2] != want {
 				add(i, "C11:grammar:tokens-changed", fmt.Sprintf("sentence %q parsed to %s, the grammar says %s", text, of[2], want))
+			}
+			if len(of) == 5 {
+				reparse(func(sig, what string) { add(i, sig, what) }, of[2], of[3], of[4])
 			}
 		}
 	}
